@@ -272,3 +272,41 @@ func (c *Conn) SetReadDeadline(t time.Time) error { c.r.setReadDeadline(t); retu
 
 // SetWriteDeadline implements net.Conn (writes never block).
 func (c *Conn) SetWriteDeadline(t time.Time) error { return nil }
+
+// MemListener is an in-memory net.Listener: Inject hands the server end of a
+// Pipe to the accept loop (erpc.VerifServeListener).
+type MemListener struct {
+	name string
+	ch   chan net.Conn
+	done chan struct{}
+	once sync.Once
+}
+
+// NewMemListener creates a listener with the given address name.
+func NewMemListener(name string) *MemListener {
+	return &MemListener{name: name, ch: make(chan net.Conn, 64), done: make(chan struct{})}
+}
+
+// Accept implements net.Listener.
+func (l *MemListener) Accept() (net.Conn, error) {
+	select {
+	case c := <-l.ch:
+		return c, nil
+	case <-l.done:
+		return nil, errors.New("listener closed")
+	}
+}
+
+// Close implements net.Listener.
+func (l *MemListener) Close() error { l.once.Do(func() { close(l.done) }); return nil }
+
+// Addr implements net.Listener.
+func (l *MemListener) Addr() net.Addr { return Addr{"tcp", l.name} }
+
+// Inject makes the accept loop receive c as a new connection.
+func (l *MemListener) Inject(c net.Conn) {
+	select {
+	case l.ch <- c:
+	case <-l.done:
+	}
+}
